@@ -25,6 +25,7 @@ CLAUSES = {
     11: "D28_gcxs_none_after_int",
     12: "D26_all_ints_with_ellipsis_not_last_returns_scalar",
     13: "D29_empty_bool_index_on_nonempty_axis",
+    14: "D30_multi_array_mask_unchecked_out_of_bounds_access",
 }
 KINDS = {1: "representation", 2: "value", 3: "value", 4: "value", 5: "value", 6: "value", 7: "value", 8: "harness",
          9: "spec"}
@@ -451,6 +452,14 @@ def api_cases(tier, seed):
             continue
         cases.append({"base": [spec], "op": None, "idx_dtype": "uint8", "index": instantiate(rng, pat, shape),
                       "cls": "u8:" + "".join(pat)})
+    # GCXS with unsigned index arrays (numba typing of convert_to_flat)
+    for _ in range(20 if tier == "quick" else 100):
+        nd = rng.randint(2, 3)
+        shape = [rng.choice([1, 2, 3, 5]) for _ in range(nd)]
+        spec = vlib.gen_array_spec(rng, shape=shape, fills=(0, 3), formats=("gcxs",), density=rng.choice([0.4, 0.7, 1.0]))
+        pat = [rng.choice("isnf") for _ in range(rng.randint(1, nd))]
+        cases.append({"base": [spec], "op": None, "idx_dtype": "uint8", "index": instantiate(rng, pat, shape),
+                      "cls": "u8g:" + "".join(pat)})
     # inputs that are outputs of other operations
     for base, op, rshape in derived_inputs(rng, 500 if tier == "quick" else 3000, [1, 2, 3, 5]):
         nd = len(rshape)
@@ -466,6 +475,9 @@ def api_cases(tier, seed):
     a5 = {"shape": [5], "coords": [[0], [1], [2], [3], [4]], "data": [1, 2, 3, 4, 5], "fill": 0, "caxes": None}
     y = vlib.gen_array_spec(random.Random(1), shape=[2, 3, 4], fills=(0,), density=1.0)
     z0 = {"shape": [], "coords": [[]], "data": [5], "fill": 0, "caxes": None}
+    w = vlib.gen_array_spec(random.Random(2), shape=[2, 3, 3, 2], fills=(0,), density=0.7, formats=("coo",))
+    cases.append({"base": [w], "op": None, "index": [["s", 0, 1, None], ["a", [0, 1], False], ["a", [1, 0], False]],
+                  "cls": "directed"})
     for fmt in ("coo", "gcxs", "dok"):
         cases.append({"base": [dict(a5, format=fmt)], "op": None, "index": [["s", -7, -6, -2]], "cls": "directed"})
         cases.append({"base": [dict(a5, format=fmt)], "op": None, "index": [["s", 5, -1, -1]], "cls": "directed"})
@@ -642,8 +654,14 @@ def campaign_index(build, tier, seed, report, budget=1):
     for i, code in verdicts:
         c, r = kept[i]
         kind, cl = code % 10, code // 10
-        viol.append({"property": "C02", "op": "getitem", "kind": KINDS.get(kind, "value"),
-                     "clause": CLAUSES.get(cl, f"clause{cl}"), "what": KIND_WHAT.get(kind),
+        what = KIND_WHAT.get(kind)
+        vkind = KINDS.get(kind, "value")
+        if cl == 14:
+            # the output happens to agree with NumPy, but the jitted _compute_multi_axis_multi_mask read indices[ixx]
+            # and wrote full_idx[ix] past the end of both arrays (its py_func raises IndexError on the same input)
+            vkind, what = "value", "unchecked out-of-bounds read and write in a nopython kernel (memory safety)"
+        viol.append({"property": "C02", "op": "getitem", "kind": vkind,
+                     "clause": CLAUSES.get(cl, f"clause{cl}"), "what": what,
                      "format": r["inp"]["k"], "producer": c.get("op"),
                      "case": {"index": index_py(c["index"]), "input": r["inp"], "class": c.get("cls")},
                      "impl": r["out"], "expected_numpy": r["np"], "replay_py": replay_of(c)})
